@@ -20,7 +20,7 @@ PROPERTY_ID = "C04"
 LEVEL = "exploration"
 EXHAUSTIVE_WHOLE = True
 RULE = (
-    "cells = step {setup M2,M4,M6; verify M2,M4} x error encoding {0x01..0x07, 0x00, 0x08, 0xFF, empty, two-byte, none} x"
+    "cells = step {setup M2,M4,M6; verify M2,M4; verify M2 answering a pair-resume request} x error encoding {0x01..0x07, 0x00, 0x08, 0xFF, empty, two-byte, none} x"
     " State {expected, every other value 1..6, absent} x EVERY subset of the step's other fields (valid values from the"
     " reference accessory of a real exchange) x item order {State,Error,others / State,others,Error} x feed mode"
     " {ip: decode_bytes(expected=...), ble: decoded dict}; plus IP and BLE add-pairing / remove-pairing against a scripted"
@@ -49,6 +49,8 @@ STEPS = {
     "setup-M6": (6, [5]),
     "verify-M2": (2, [3, 5]),
     "verify-M4": (4, []),
+    # pair-resume answer (BLE reconnect): Method, SessionID and the resume auth tag are valid for the requested session
+    "verify-M2-resume": (2, [0, 14, 5]),
 }
 
 
@@ -81,6 +83,8 @@ def all_cells():
                         if not sub and order == "error-last":
                             continue
                         for mode in ("ip", "ble"):
+                            if step == "verify-M2-resume" and mode == "ip":
+                                continue  # resumption is only requested by the BLE transport
                             cells.append((step, err, st, sub, order, mode))
     return cells
 
@@ -158,6 +162,20 @@ def run_cell(ctx, cell, idx) -> None:
         code = f"{rng.randrange(1000):03d}-{rng.randrange(100):02d}-{rng.randrange(1000):03d}"
         acc = refps.SetupAccessory(code, b"AA:BB:CC:DD:EE:FF", rng.randbytes(32), rng.randbytes(16), rng.getrandbits(256) | 1)
         out = drv.run_pair_setup(acc, code, "c04-controller", mode, False, mutate)
+    elif step == "verify-M2-resume":
+        from vf.props.c01 import Record
+
+        rec = Record(rng, idx)
+        first = drv.run_pair_verify(refpv.VerifyExchange(rec.identity, rng.randbytes(32)), rec.pairing_data, mode)
+        if not first.returned:
+            ctx.mark_inconclusive(f"C04 harness: honest pair-verify before resume failed: {first.exc!r}")
+            return
+        session_id, derive = first.value
+        ex = refpv.VerifyExchange(rec.identity, rng.randbytes(32), new_session_id=rng.randbytes(8))
+        out = drv.run_pair_verify(ex, rec.pairing_data, mode, mutate, session_id=session_id, derive=derive)
+        if not ex.resumed:
+            ctx.mark_inconclusive("C04 harness: reference accessory did not resume")
+            return
     else:
         from vf.props.c01 import Record
 
